@@ -1,4 +1,4 @@
 SPECIFICATION Spec
-CONSTANT MaxZ = 8
+CONSTANT MaxZ = 9
 INVARIANT Theorems
 CHECK_DEADLOCK FALSE
